@@ -72,6 +72,7 @@ type writeRec struct {
 	key string
 	idx string
 	s   Sort
+	chk bool // the write went through checkWrite / checkRegionWrite (it carries a write obligation in the real pass)
 }
 
 type FuncVC struct {
@@ -111,24 +112,26 @@ type FuncVC struct {
 	// by-value copies of a BigInt (bigint-copy obligations) and everything that could make the sharing between the
 	// copy and its source observable: writes to any BigInt other than the copy itself, whole-heap havoc, constructs
 	// outside the subset, interface calls, non-scalar values wrapped in interfaces. Decided at the end of Generate.
-	bigCopyObls []*Obligation
-	bigWrites   int
-	inBigCopy   bool
-	lemmasUsed  map[string]bool
-	discovery   int
-	ordCount    map[string]int
-	localDone   map[string]bool
-	assertsSeen map[string]bool
-	allocs      map[string]*Val            // address-taken locals by source name
-	defBlock    map[string]*ssa.BasicBlock // block in which a named local was (last) bound
-	curBlock    *ssa.BasicBlock
-	curPos      token.Pos
-	localNames  map[string]bool
-	dcalls      []*delegCall
-	sites       []string
-	siteOrd     map[*ssa.Call]int    // ordinal of a call among the calls to the same callee, in source order
-	debugVals   map[string]SVal      // most recent value bound to a source-level local (go/ssa debug info)
-	bindings    map[string][]binding // all bindings of source-level locals, by defining block
+	assignRegions     []region
+	assignRegionsDone bool
+	bigCopyObls       []*Obligation
+	bigWrites         int
+	inBigCopy         bool
+	lemmasUsed        map[string]bool
+	discovery         int
+	ordCount          map[string]int
+	localDone         map[string]bool
+	assertsSeen       map[string]bool
+	allocs            map[string]*Val            // address-taken locals by source name
+	defBlock          map[string]*ssa.BasicBlock // block in which a named local was (last) bound
+	curBlock          *ssa.BasicBlock
+	curPos            token.Pos
+	localNames        map[string]bool
+	dcalls            []*delegCall
+	sites             []string
+	siteOrd           map[*ssa.Call]int    // ordinal of a call among the calls to the same callee, in source order
+	debugVals         map[string]SVal      // most recent value bound to a source-level local (go/ssa debug info)
+	bindings          map[string][]binding // all bindings of source-level locals, by defining block
 }
 
 type loopHead struct {
@@ -352,7 +355,7 @@ func (vc *FuncVC) toSVal(x *Val, t types.Type) SVal {
 		return SVal{T: x.Loc.Idx, Ty: SType{K: KRef, Elem: x.Loc.Type}}
 	case vSlice:
 		sl := t.Underlying().(*types.Slice)
-		return SVal{T: x.Elems[0].T, Len: x.Elems[1].T, Ty: SType{K: KSlice, Elem: sl.Elem()}}
+		return SVal{T: x.Elems[0].T, Len: x.Elems[1].T, Cap: vc.capOf(x), Ty: SType{K: KSlice, Elem: sl.Elem()}}
 	case vAgg:
 		return SVal{T: IntLit(0), Ty: SType{K: KStruct, Elem: t}, Flat: x.Flat}
 	}
@@ -362,7 +365,7 @@ func (vc *FuncVC) toSVal(x *Val, t types.Type) SVal {
 // ---------------------------------------------------------------- memory access
 
 func (vc *FuncVC) logWrite(key string, idx Term, s Sort) {
-	vc.writes = append(vc.writes, writeRec{key, idx.S, s})
+	vc.writes = append(vc.writes, writeRec{key, idx.S, s, false})
 }
 
 // writeAllowed: the location key[idx] is fresh (allocated by this call) or listed in the function's assigns clause.
@@ -383,7 +386,68 @@ func (vc *FuncVC) writeAllowed(key string, idx Term) Term {
 	for _, a := range vc.assignLeaves[key] {
 		g = Or(g, Eq(idx, a))
 	}
+	for _, r := range vc.entryRegions() {
+		if r.Key == key {
+			g = Or(g, r.contains(idx))
+		}
+	}
 	return g
+}
+
+// frameFact: forall i. 0 < i < cnt0 and i outside the assigns set ==> arr[i] == entry[i]
+func (vc *FuncVC) frameFact(key string, s Sort, arr Term) Term {
+	vc.nfresh++
+	q := fmt.Sprintf("fi_%d", vc.nfresh)
+	i := Term{q, SInt}
+	conds := []Term{Lt(IntLit(0), i), Lt(i, vc.entry.cnt)}
+	vc.writeAllowed(key, IntLit(1)) // make sure assignLeaves is resolved
+	for _, a := range vc.assignLeaves[key] {
+		conds = append(conds, Ne(i, a))
+	}
+	for _, r := range vc.entryRegions() {
+		if r.Key == key {
+			conds = append(conds, Not(r.contains(i)))
+		}
+	}
+	body := Implies(And(conds...), Eq(Select(arr, i, s), Select(vc.arr(vc.entry, key, s), i, s)))
+	return Term{fmt.Sprintf("(forall ((%s Int)) (! %s :pattern (%s)))", q, body.S, Select(arr, i, s).S), SBool}
+}
+
+// checkRegionWrite: every cell of [lo, hi) is fresh or in the assigns set (a Skolem cell stands for all of them).
+func (vc *FuncVC) checkRegionWrite(key string, lo, hi Term, what string) {
+	if !vc.fc.HasAssigns || vc.discovery > 0 {
+		return
+	}
+	sk := vc.fresh("rw", SInt)
+	g := Implies(And(Le(lo, sk), Lt(sk, hi)), vc.writeAllowed(key, sk))
+	vc.oblige("F", fmt.Sprintf("write/%s[..]#%d", key, vc.ord("write")), vc.reach[vc.curBlock], g, []string{"C06", "C18"}, vc.curPos, "only fresh memory and the assigns set are ever written: "+what)
+}
+
+// havocRegion: the cells [lo, hi) of key take unknown values (when cond holds), every other cell keeps its value.
+func (vc *FuncVC) havocRegion(st *State, key string, s Sort, lo, hi, cond Term, hint string) Term {
+	old := vc.arr(st, key, s)
+	na := vc.freshArray(hint+"_"+key, s)
+	vc.nfresh++
+	q := fmt.Sprintf("ri_%d", vc.nfresh)
+	i := Term{q, SInt}
+	body := Implies(Not(And(cond, Le(lo, i), Lt(i, hi))), Eq(Select(na, i, s), Select(old, i, s)))
+	vc.assume(Term{fmt.Sprintf("(forall ((%s Int)) (! %s :pattern (%s)))", q, body.S, Select(na, i, s).S), SBool})
+	st.heap[key] = na
+	vc.writes = append(vc.writes, writeRec{key, "*", s, true})
+	return na
+}
+
+// entryRegions: the regions of the function's own assigns clause, resolved once in the entry state.
+func (vc *FuncVC) entryRegions() []region {
+	if vc.assignRegionsDone {
+		return vc.assignRegions
+	}
+	vc.assignRegionsDone = true
+	e0 := vc.env(vc.entry, nil)
+	for _, ax := range vc.fc.Assigns {
+		vc.assignRegions = append(vc.assignRegions, vc.regions(e0, ax)...)
+	}
+	return vc.assignRegions
 }
 
 func (vc *FuncVC) checkWrite(key string, idx Term, what string) {
@@ -403,6 +467,7 @@ func (vc *FuncVC) checkWrite(key string, idx Term, what string) {
 func (vc *FuncVC) storeLeaf(st *State, key string, idx Term, v Term) {
 	vc.checkWrite(key, idx, key)
 	vc.logWrite(key, idx, v.Sort)
+	vc.writes[len(vc.writes)-1].chk = true
 	vc.store(st, key, idx, v)
 	vc.markDef(st, key, idx, TTrue)
 }
@@ -848,7 +913,7 @@ func (vc *FuncVC) setupParams() {
 }
 
 func (vc *FuncVC) env(cur *State, extra map[string]SVal) *Env {
-	e := &Env{g: vc.Gen, cur: cur, old: vc.entry, vars: map[string]SVal{}}
+	e := &Env{g: vc.Gen, cur: cur, old: vc.entry, vars: map[string]SVal{}, entry: vc.params}
 	for k, v := range vc.params {
 		e.vars[k] = v
 	}
@@ -1420,7 +1485,21 @@ func (vc *FuncVC) enterLoop(h *ssa.BasicBlock, order []*ssa.BasicBlock) {
 		}
 		s := ws[0].s
 		if variant {
-			st.heap[key] = vc.freshArray("LH_"+key, s)
+			lh := vc.freshArray("LH_"+key, s)
+			st.heap[key] = lh
+			// Inductive frame. In a function that claims a frame every store and every callee effect carries a write
+			// obligation (fresh memory or the assigns set). If all writes of this loop to the key are of that checked
+			// kind, a cell that existed at entry and is outside the assigns set still holds its entry value at the
+			// loop head, however many iterations ran.
+			allChecked := vc.fc.HasAssigns
+			for _, w := range ws {
+				if !w.chk {
+					allChecked = false
+				}
+			}
+			if allChecked {
+				vc.assume(vc.frameFact(key, s, lh))
+			}
 			continue
 		}
 		for _, ix := range idxs {
